@@ -40,6 +40,7 @@ import (
 	"net"
 	"os"
 	"os/exec"
+	"runtime"
 	"strings"
 	"sync"
 	"time"
@@ -195,6 +196,18 @@ type hsAttacker struct {
 	firstDCIDs       [][]byte
 }
 
+// firstCorrupted: is the datagram altered on its way (the echoing server would then see, and echo, another DCID:
+// the scenario degenerates to a random SCID)
+func (a *hsAttacker) firstCorrupted(dir, idx int) bool {
+	for _, f := range a.c.Faults {
+		// (any corrupted datagram of the client's first flight may be the one the server answers first)
+		if f.Dir == dir && f.Idx <= idx+3 && (f.Kind == fFlip || f.Kind == fTrunc) {
+			return true
+		}
+	}
+	return false
+}
+
 func (a *hsAttacker) observe(dir, idx int, data []byte) {
 	a.mu.Lock()
 	defer a.mu.Unlock()
@@ -207,7 +220,7 @@ func (a *hsAttacker) observe(dir, idx int, data []byte) {
 		if !a.seenAttempt[key] {
 			// a new connection attempt (first dial, or the re-creation after a version negotiation)
 			a.seenAttempt[key] = true
-			if a.echo != nil {
+			if a.echo != nil && !a.firstCorrupted(dir, idx) {
 				a.echo.offer(h.dcid)
 			}
 			a.cliSCID = h.scid
@@ -423,6 +436,16 @@ func runOneHS(c hsCase) (fails []monFail, info string) {
 			}
 			att.mu.Lock()
 			att.noteGenuine(dir, idx, p.Data, act)
+			if f, has := e.Router.sched[[2]int{dir, idx}]; has && f.Kind == fFlip && dir == 1 && len(p.Data) > 0 {
+				// a bit flip that turns a server packet into something with version 0 makes it a Version Negotiation
+				// packet (v1 = 0x00000001 is one bit away): nothing authenticates it, same class as a forged one
+				q := append([]byte(nil), p.Data...)
+				bit := f.Arg % (len(q) * 8)
+				q[bit/8] ^= 1 << uint(bit%8)
+				if h, ok := hsParse(q); ok && h.version == 0 {
+					att.vnCorrupted = true
+				}
+			}
 			att.mu.Unlock()
 			return out
 		}
@@ -828,7 +851,7 @@ func runOneHS(c hsCase) (fails []monFail, info string) {
 			fail("simhandshake/one-retry", fmt.Sprintf("client connection %s used %d different DCIDs in its Initials before any genuine server packet: more than one Retry accepted", sc, n))
 		}
 	}
-	if c.EchoDCID && ok && len(res.conns) > 0 {
+	if c.EchoDCID && ok && len(res.conns) > 0 && att.echo != nil && att.echo.used > 0 {
 		last := res.conns[len(res.conns)-1]
 		if !bytes.Equal(last.HsDCID, last.OrigDCID) {
 			fail("simhandshake/echo-setup", fmt.Sprintf("scenario wants server SCID = original DCID, got %s", caStateStr(last)))
@@ -930,15 +953,47 @@ func runSimHandshake(w *bufio.Writer, seed uint64, n int, args []string) {
 		runSimHandshakeCases(w, seed, n, args)
 		return
 	}
+	// thorough tier: the (exhaustive) case list is sharded over worker processes, case i goes to worker i mod W
+	workers := 1
+	if os.Getenv("VERIF_TIER") == "thorough" {
+		workers = runtime.NumCPU()
+		if workers > 8 {
+			workers = 8
+		}
+	}
+	if v := os.Getenv("VERIF_WORKERS"); v != "" {
+		fmt.Sscanf(v, "%d", &workers)
+	}
+	if workers < 1 {
+		workers = 1
+	}
+	outs := make([]bytes.Buffer, workers)
+	var wg sync.WaitGroup
+	for k := 0; k < workers; k++ {
+		wg.Add(1)
+		go func(k int) {
+			defer wg.Done()
+			runSimHandshakeShard(&outs[k], exe, seed, n, args, k, workers)
+		}(k)
+	}
+	wg.Wait()
+	// DIST lines of the shards are summed by bin/check; everything else is passed through in shard order
+	for k := range outs {
+		w.Write(outs[k].Bytes())
+	}
+}
+
+// one worker: a child process per stretch between crashes
+func runSimHandshakeShard(w *bytes.Buffer, exe string, seed uint64, n int, args []string, shard, workers int) {
 	from, crashes := 0, 0
 	for {
-		cargs := append([]string{"simhandshake", fmt.Sprint(seed), fmt.Sprint(n), "child", fmt.Sprintf("from=%d", from)}, args...)
+		cargs := append([]string{"simhandshake", fmt.Sprint(seed), fmt.Sprint(n), "child", fmt.Sprintf("from=%d", from), fmt.Sprintf("shard=%d/%d", shard, workers)}, args...)
 		cmd := exec.Command(exe, cargs...)
 		var stderr bytes.Buffer
 		cmd.Stderr = &stderr
 		out, err := cmd.StdoutPipe()
 		if err != nil || cmd.Start() != nil {
-			runSimHandshakeCases(w, seed, n, args)
+			fmt.Fprintf(w, "MONFAIL\tsimhandshake/crash-loop\tcannot start a worker process\tshard %d\n", shard)
 			return
 		}
 		sc := bufio.NewScanner(out)
@@ -985,7 +1040,11 @@ func runSimHandshakeCases(w *bufio.Writer, seed uint64, n int, args []string) {
 	r := u.NewRng(seed)
 	scen := hsScenarios()
 	only, from, child := -1, 0, false
+	shard, nshards := 0, 1
 	for _, a := range args {
+		if strings.HasPrefix(a, "shard=") {
+			fmt.Sscanf(a, "shard=%d/%d", &shard, &nshards)
+		}
 		if strings.HasPrefix(a, "only=") {
 			fmt.Sscanf(a, "only=%d", &only)
 		}
@@ -1029,6 +1088,21 @@ func runSimHandshakeCases(w *bufio.Writer, seed uint64, n int, args []string) {
 					}
 				}
 			}
+			// every pair of faults (the property's quantifier: every schedule of <= 2 faults over the first 12 datagrams
+			// of each direction); VERIF_PAIRS=sample restores the random sample
+			if os.Getenv("VERIF_PAIRS") != "sample" {
+				for a := 0; a < 2*hsPositions; a++ {
+					for b := a + 1; b < 2*hsPositions; b++ {
+						for ka := 0; ka < fNumKinds; ka++ {
+							for kb := 0; kb < fNumKinds; kb++ {
+								c := s
+								c.Faults = []fault{hsFault(a/hsPositions, a%hsPositions, ka, r), hsFault(b/hsPositions, b%hsPositions, kb, r)}
+								cases = append(cases, c)
+							}
+						}
+					}
+				}
+			}
 			// every injection at every position
 			for k := 0; k < injNumKinds; k++ {
 				for dir := 0; dir < 2; dir++ {
@@ -1044,7 +1118,11 @@ func runSimHandshakeCases(w *bufio.Writer, seed uint64, n int, args []string) {
 			}
 		}
 	}
-	for len(cases) < n {
+	target := n
+	if thorough {
+		target = len(cases) + n // n additional random cases (faults and an injection together)
+	}
+	for len(cases) < target {
 		c := scen[r.Intn(len(scen))]
 		nf := r.Intn(3)
 		for i := 0; i < nf; i++ {
@@ -1069,7 +1147,7 @@ func runSimHandshakeCases(w *bufio.Writer, seed uint64, n int, args []string) {
 	dist := map[string]int{}
 	for i, c := range cases {
 		c.Seed = seed*1000003 + uint64(i)
-		if (only >= 0 && i != only) || i < from {
+		if (only >= 0 && i != only) || i < from || (nshards > 1 && i%nshards != shard) {
 			continue
 		}
 		if child {
